@@ -118,14 +118,16 @@ func c17Run(c *mon.Case, hist string) {
 		for pi := range c17Probes {
 			p := c17Probes[(pi+rot)%len(c17Probes)]
 			want := 0
-			if p > 0xFFFE {
-				continue // beyond the map's last character: not part of any range's countable part
-			}
 			for i := len(model) - 1; i >= 0; i-- {
 				if p >= model[i].lo && p <= model[i].hi {
 					want = model[i].ref
 					break
 				}
+			}
+			if p > 0xFFFE && want != 0 {
+				// beyond the map's last character but nominally inside a range that ends out there: the map clips such
+				// ranges, what it answers here is not judged; a probe out there that NO range reaches must still find nothing
+				continue
 			}
 			got := m.Lookup(p)
 			ok := false
@@ -165,7 +167,7 @@ func buildC17(cfg *mon.Config) []*mon.Sub {
 	maxLen := 3
 	exh := &mon.Sub{
 		Name:          "history-exhaustive",
-		Rule:          fmt.Sprintf("every history of length <= %d over the 88 operations {AddInterval(lo,hi,ref) for the 28 ordered endpoint pairs of {0,'a',0xFF,0x100,0x101,0x2000,0xFFFE} x refs {A,B,none}; AddDefaultInterval(ref); Clear}, probed after every operation at every endpoint and its neighbours plus 0x1000, 0x8000, 0xFFFF (%d probes) against a newest-first list model with pointer identity; plus every history of length 2 in which at least one range ends beyond the map's last character (at U+FFFF, U+10FFFF or the largest rune value 0x7FFFFFFF; the part of such a range inside U+0000..U+FFFE counts, probes beyond U+FFFE are not judged); non-trivial = some registration spans the U+0100 boundary", maxLen, len(c17Probes)),
+		Rule:          fmt.Sprintf("every history of length <= %d over the 88 operations {AddInterval(lo,hi,ref) for the 28 ordered endpoint pairs of {0,'a',0xFF,0x100,0x101,0x2000,0xFFFE} x refs {A,B,none}; AddDefaultInterval(ref); Clear}, probed after every operation at every endpoint and its neighbours plus 0x1000, 0x8000, 0xFFFF (%d probes) against a newest-first list model with pointer identity; plus every history of length 2 in which at least one range ends beyond the map's last character (at U+FFFF, U+10FFFF or the largest rune value 0x7FFFFFFF; the part of such a range inside U+0000..U+FFFE counts; a probe beyond U+FFFE is judged only when no range reaches it: it must find nothing); non-trivial = some registration spans the U+0100 boundary", maxLen, len(c17Probes)),
 		Exhaustive:    true,
 		DistinctByGen: true,
 		Floor:         1000,
